@@ -1,5 +1,7 @@
-"""C11 optional/complex vectors and arrays keep parallel storages in lockstep: explicit-state BFS (E1) plus two scenario
-enumerations (arguments that refer into the container itself; size sweep over every flag block type)."""
+"""C11 optional/complex vectors and arrays keep parallel storages in lockstep: explicit-state BFS (E1) plus four scenario
+enumerations (arguments that refer into the container itself; size sweep over every flag block type; reads of non-trivially-movable
+element values through the prvalue proxies of every access path; ==/!= over floating-point values whose representation and value
+differ)."""
 import os
 import vlib
 
@@ -7,10 +9,11 @@ LEVEL = "model_checking"
 HERE = os.path.dirname(os.path.abspath(__file__))
 SRC = os.path.join(HERE, "harness.cpp")
 EXTRA = os.path.join(HERE, "extra.cpp")
+VALUES = os.path.join(HERE, "values.cpp")
 
 
 def build():
-    """Returns ({tag: binary}, proxy_assign_is_well_formed). The four translation units are compiled side by side."""
+    """Returns ({tag: binary}, proxy_assign_is_well_formed). The six translation units are compiled side by side."""
     # capability probe: whole-element assignment to a complex proxy from an xcomplex value (ill-formed on the pinned tree)
     b = vlib.compile_cxx(SRC, "c11-pa", std="c++14", opt="-O1", san="asan", defines=["CX_PROXY_ASSIGN=1"], expect_fail=True)
     pa = bool(b)
@@ -25,9 +28,13 @@ def build():
         # of the instantiation manifest is REQUIRED: it is well-formed on the pinned tree, so a tree on which it no longer compiles
         # is a check error (exit 2), not a pass.
         (lambda: vlib.compile_cxx(EXTRA, "c11x-wide", std="gnu++14", opt="-O1", san="asan", defines=d + ["C11_WIDE=1"])),
+        # values.cpp, read part: element values that are not trivially movable (std::string, a handle whose move steals)
+        (lambda: vlib.compile_cxx(VALUES, "c11v-read", std="c++14", opt="-O1", san="asan", defines=d + ["C11_READ=1"])),
+        # values.cpp, floating-point part: -0.0 / +0.0, NaNs, infinities in the == / != oracle
+        (lambda: vlib.compile_cxx(VALUES, "c11v-fp", std="c++14", opt="-O1", san="asan", defines=d + ["C11_FP=1"])),
     ]
     bins = vlib.parallel(jobs)
-    return dict(zip(("c11", "c11x-alias", "c11x-sweep", "c11x-wide"), bins)), pa
+    return dict(zip(("c11", "c11x-alias", "c11x-sweep", "c11x-wide", "c11v-read", "c11v-fp"), bins)), pa
 
 
 def plan(tier):
@@ -45,6 +52,8 @@ def plan(tier):
     runs += [("c11x-wide", ["--inst", i] + t) for i in ("sweep-ov-u128", "sweep-oa-u128")]
     if tier != "quick":
         runs += [("c11x-wide", ["--inst", "alias-ov-u128"] + t)]
+    runs += [("c11v-read", ["--inst", i] + t) for i in ("read-ov-str", "read-ov8-str", "read-oa-str", "read-ov-tok", "read-oa-tok")]
+    runs += [("c11v-fp", ["--inst", i] + t) for i in ("fp-cv-f64", "fp-cv-f64-ieee", "fp-cv-f32", "fp-ca-f64", "fp-ca3-f64", "fp-ov-f64", "fp-ov-f32", "fp-oa-f64", "fp-oa3-f64")]
     return runs
 
 
@@ -66,7 +75,8 @@ def run(ctx):
     ctx.note("assignment between two xoptional element proxies of the same type (c[i] = c[j]) is ill-formed on this tree (deleted: reference members), as is assignment of a "
              "complex proxy from a proxy of another instantiation (c[i] = cc[j]); those designators are enumerated as resize / constructor arguments only")
     ctx.note("'transitions' = BFS transitions + scenarios of the alias and sweep parts (every scenario is one judged operation on a state rebuilt from a fresh container); "
-             "'states' counts BFS states only; 'scenarios', 'alias_*' and 'sweep_*' give the scenario parts separately")
+             "'states' counts BFS states only; 'scenarios', 'alias_*', 'sweep_*', 'read_*' and 'fp_*' give the scenario parts separately "
+             "(fp_comparisons: ==/!= evaluations judged inside the fp scenarios, not counted as transitions)")
     ctx.rule = ("BFS over the raw states (both storages, element by element, and their two lengths) of real xoptional_vector<int> (flags in xdynamic_bitset<size_t> and <uint8_t>), xoptional_array<int,3>, "
                 "xcomplex_vector<double>, xcomplex_array<double,3>; every constructor (default via poisoned placement in both initialisation forms, (n), (n,value), (n,optional present/missing/reference closure), "
                 "(n,xcomplex value/reference closure), initializer list), resize(s) / resize(s,v) / resize(s,optional|xcomplex) for every s, every element write (value x flag) through [] at front back, forward and "
@@ -83,7 +93,17 @@ def run(ctx):
                 "Sweep part (instantiations sweep-*): flag block types uint8_t, uint16_t, uint32_t, uint64_t and unsigned __int128 (GNU dialect build), sizes around one and two blocks of each type and around 64, "
                 "eight construction routes (the constructors, the three resize overloads growing, shrinking and growing again), then EVERY index x twenty single-element write paths from a copy of the built state; "
                 "after each write both storages are compared with the model at every position, the written element is read back through every access path, and ==/!= against the unwritten state must agree with "
-                "the model; arrays of 130 elements over uint8_t / uint64_t / unsigned __int128 flag blocks, complex vector and array likewise")
+                "the model; arrays of 130 elements over uint8_t / uint64_t / unsigned __int128 flag blocks, complex vector and array likewise. "
+                "Read part (instantiations read-*, values.cpp): optional vectors (flag blocks uint64_t and uint8_t) and xoptional_array<T,3> over element types that are NOT trivially movable "
+                "(std::string all-short / all-long / mixed, a heap handle whose move steals); for every size, flag pattern and index i, element i is READ through the prvalue proxy of each of 17 access paths "
+                "(const and non-const [] at front back, begin+i, end-(n-i), rbegin, cbegin, crbegin, iterator [], iterators stepped by ++ / --) in each of 17 forms (assignment to an xoptional<T> value, "
+                "copy- and direct-initialisation, assignment to a reference closure over locals, assignment to the proxy of another optional vector through [] and an iterator, .value()/.has_value() and "
+                "value_or on the prvalue, named proxy copies, a new container filled from it, resize fill of another container, emplace_back/push_back, repeated reads) plus resize of the container itself "
+                "filled from its own element and nine whole-container reads (std::copy forward / reverse / const into a std::vector<xoptional<T>>, into another optional vector, back_inserter, three loops); "
+                "judged: the destination holds (values[i], flags[i]) and the source container, re-read completely through named proxies and both storages, still holds what was written. "
+                "Floating-point part (instantiations fp-*, values.cpp): xcomplex_vector<double> (both ieee modes), <float>, xcomplex_array<double,2|3>, xoptional_vector<double|float>, xoptional_array<double,2|3>; "
+                "ALL states over a value alphabet with +0.0/-0.0, two NaNs, 1, +-inf, denorm_min per part up to the stated size, each built through every construction / write route, read back, and compared "
+                "with == and != against itself and against EVERY state; oracle std::vector<std::pair<..>>::operator== on the models")
     ctx.assumptions += [
         "element values {0,7} and flags {0,1}; complex parts from {0,1,2,3,4,5,6}; maximal size 4 (quick) / 5-6 (thorough); flag-block crossing (size 9 over uint8_t blocks; thorough: size 65 over 64-bit blocks, state cap 40000) with boundary indices",
         "constructors taking a size are called with the container's own size for the array variants, as the statement says",
@@ -95,6 +115,12 @@ def run(ctx):
         "(see NOTES.md, 'Not enumerated')",
         "sweep part: sizes {0,1,2,3,w-1,w,w+1,2w-1,2w,2w+1,63,64,65} for block width w (thorough: every size 0..max(2w+2,130)); written values 5 / flags both; unsigned __int128 blocks are checked in -std=gnu++14 "
         "(the library requires is_scalar<block_type>, which holds for that type only in the GNU dialects); the other harnesses stay -std=c++14",
+        "read part: sizes {1,2,3,4} (thorough {1,2,3,4,5,9}; all 2^n flag patterns up to n = 4, none/all/even/odd above), arrays of size 3; a read is an expression that takes the proxy as a prvalue "
+        "straight from the access path, or a named copy of it used as an lvalue; std::move applied to a named proxy is NOT enumerated (the caller asked for a move; nothing is promised about it); "
+        "nothing is judged about objects the scenario itself moved from",
+        "fp part: 'values match' is read as the element type's == (what std::vector::operator== does): +0.0 matches -0.0, a NaN matches nothing, not even itself (c == c is false for a state holding a NaN, "
+        "as on the pinned tree); stored parts are read back up to == / NaN-ness only (the sign of a stored zero is not judged); alphabet {+0,-0,nan,1,-nan#1,+inf,-inf,denorm_min} for sizes 0..2 "
+        "(thorough: + -denorm_min, -1) and {+0,-0,nan} for size 3 (thorough: + 1; optional vectors also size 4); long double is not instantiated",
     ]
 
 
